@@ -772,7 +772,13 @@ Definition corr01 (c : c01_case) : bool :=
       left ERROR other than by teardown, or ended live                                    [C01-b]
    10 concurrent requests never returned (deadlock) in an episode with a ControlEnvironment
       transition request and a failing hook on the GO_ERROR fallback path                [C01-c]
-   11 concurrent requests never returned, any other episode *)
+   11 concurrent requests never returned, any other episode
+   12 a hook ran or a task command was sent in a locked section that started in DONE
+   13 a teardown / destroy reported success although the environment was DONE when its section
+      started, or two requests reported a successful teardown of the same environment
+   14 a leave hook of a state other than the one its section started in
+   15 Manager.TeardownEnvironment without force executed from a state other than STANDBY / DEPLOYED
+   (12-15: a locked section decided on a state that was not the one left by the previous section) *)
 
 Definition edge_code (conc listed : bool) (e : estate * estate) : N :=
   let '(a, b) := e in
@@ -870,9 +876,69 @@ Definition goerror_path_fault (o : oracle) : bool :=
 Definition aborted (ths : list (req * N * option estate)) : bool :=
   existsb (fun t => match fst (fst t) with QControl _ => snd (fst t) =? 3 | _ => false end) ths.
 
-Definition mon_conc (st0 : estate) (o : oracle) (ths : list (req * N * option estate)) (log : list litem)
-           (final : estate) (listed : bool) : N :=
+(* Each locked section sees the state left by the previous one, judged on the observed log.  The
+   state in which a section started is the FSM state sampled when its opening event was written
+   (inside the mutex).  12: a hook ran or a task command was sent in a section that started in DONE;
+   14: a leave hook names a state other than the one the section started in. *)
+Fixpoint sections_code (open : option estate) (l : list litem) : N :=
+  match l with
+  | [] => 0
+  | LE 1 st _ :: r => sections_code (Some st) r
+  | LE 2 _ _ :: r => sections_code None r
+  | LE _ _ _ :: r => sections_code open r
+  | LI (SetSt _) :: r => sections_code open r
+  | LI it :: r =>
+    match open with
+    | Some st0 =>
+      if estate_eqb st0 sDONE then 12 else
+      match it with
+      | Hook (MLeave s) => if estate_eqb s st0 then sections_code open r else 14
+      | _ => sections_code open r
+      end
+    | None => sections_code open r
+    end
+  end.
+
+Fixpoint open_states (l : list litem) : list estate :=
+  match l with
+  | [] => []
+  | LE 1 st _ :: r => st :: open_states r
+  | _ :: r => open_states r
+  end.
+
+(* the request that owns a section (the hint lists the thread of every opening event): 13: a
+   teardown / destroy that reports success although the environment was DONE when its section
+   started; 15: Manager.TeardownEnvironment without force executed from a state other than
+   STANDBY / DEPLOYED *)
+Definition owner_code (ths : list (req * N * option estate)) (i : N) (st : estate) : N :=
+  match nth_error ths (N.to_nat i) with
+  | Some (QTeardown f, code, _) =>
+    if estate_eqb st sDONE && (code =? 0) then 13
+    else if negb f && negb (mem_state st [sSTANDBY; sDEPLOYED]) then 15 else 0
+  | Some (QDestroy _ _ _, code, _) => if estate_eqb st sDONE && (code =? 0) then 13 else 0
+  | _ => 0
+  end.
+Fixpoint owners_code (ths : list (req * N * option estate)) (macro : list N) (os : list estate) : N :=
+  match macro, os with
+  | i :: m, st :: r => let c := owner_code ths i st in if c =? 0 then owners_code ths m r else c
+  | _, _ => 0
+  end.
+Definition teardown_successes (ths : list (req * N * option estate)) : nat :=
+  length (filter (fun t => match fst (fst t) with
+                           | QTeardown _ | QDestroy _ _ _ => snd (fst t) =? 0
+                           | _ => false
+                           end) ths).
+
+Definition mon_conc (st0 : estate) (o : oracle) (ths : list (req * N * option estate)) (macro : list N)
+           (log : list litem) (final : estate) (listed : bool) : N :=
   if negb (brackets_ok 0 log) then 6 else
+  let sc := sections_code None log in
+  if negb (sc =? 0) then sc else
+  let oc := if Nat.eqb (length macro) (length (open_states log))
+            then owners_code ths macro (open_states log) else 0 in
+  if negb (oc =? 0) then oc else
+  (* an environment is torn down once: two requests reporting a successful teardown *)
+  if Nat.leb 2 (teardown_successes ths) then 13 else
   (* a control request answered Aborted has put the environment in ERROR: afterwards only a
      teardown may move it (class 5 when no unlocked forced state can be involved) *)
   if aborted ths && live final && negb (goerror_path_fault o) then 5 else
@@ -903,7 +969,7 @@ Definition mon01 (c : c01_case) : N :=
     | [(a, b)] => if estate_eqb final b then 0 else 5
     | _ => 5
     end
-  | CConc st0 o ths macro micro log final listed => mon_conc st0 o ths log final listed
+  | CConc st0 o ths macro micro log final listed => mon_conc st0 o ths macro log final listed
   | CHung o reqs => if existsb is_transition_request reqs && goerror_path_fault o then 10 else 11
   end.
 
